@@ -250,3 +250,70 @@ Proof. exact queue_hypotheses_satisfiable. Qed.
 Print Assumptions C08_suffix_and_repeats_queue_translated.
 Print Assumptions C08_resume_exact_queue_translated.
 Print Assumptions C08_source_recursion_limit_raised.
+(* ---- translator tie of the command line / save-file glue (task T17): gen/Cli_gen.v is the
+   translation of pcfg_guesser.py (main, parse_command_line, create_save_config, load_save;
+   harness/translate_cli.py, redone on every run); see Props/C14.v for the equalities of the other
+   translated functions with the model CliModel.v *)
+From Coq Require Import String ZArith.
+From Pcfg Require Import CliModel CliModelProofs CliRt CliGenProofs.
+From PcfgGen Require Import Cli_gen.
+Import ListNotations.
+
+Theorem C08_source_main_is_model : forall E, run_main (py_main E) world0 = m_main E gen_version.
+Proof. exact main_eq. Qed.
+
+(* "A session is refused when the ruleset's UUID differs from the one saved": for every argv that
+   restores a session, every save file load_save accepts and every ruleset, main builds the grammar
+   and then runs the session only when the saved uuid equals the ruleset's - with load_session True,
+   the save file name <script dir>/<session>.sav and the loaded configuration, unchanged (it holds
+   the saved min/max probability the queue is rebuilt from) *)
+Theorem C08_uuid_decides_resume : forall E o c rule sb sc e log u,
+  m_parse (e_int_of E) (e_argv E) = Some (true, o) -> resumes o = true ->
+  m_load_save (e_fs E (save_name E o)) = LOk c rule sb sc ->
+  cfg_lookup k_rule_info (lit "uuid") c = Some u ->
+  run_main (py_main E) world0 = (e, log) ->
+  exists g, log = EGrammar g :: match e_grammar E g with
+                               | None => []
+                               | Some u' =>
+                                 if py_eqb (VStr u) u' then
+                                   [ECrackRun {| cs_pcfg := {| g_call := g; g_uuid := u' |}; cs_save_config := VCfg c;
+                                                 cs_save_filename := VStr (save_name E o) |} (VBool true) (v_limit (o_limit o))]
+                                 else []
+                               end.
+Proof. exact source_uuid. Qed.
+
+(* a save file that is missing, unparsable or lacks one of the five options restores nothing *)
+Theorem C08_unusable_save_file : forall E o,
+  m_parse (e_int_of E) (e_argv E) = Some (true, o) -> resumes o = true ->
+  match m_load_save (e_fs E (save_name E o)) with
+  | LFail => run_main (py_main E) world0 = (MDone, [])
+  | LCrash e => run_main (py_main E) world0 = (MRaise e, [])
+  | LOk _ _ _ _ => True
+  end.
+Proof. exact source_load_failure. Qed.
+
+(* what a session writes is read back: rule name and flags of the saved session (round trip) *)
+Theorem C08_save_load_round_trip : forall now rule sb sc uuid stamp guessing,
+  m_load_save (FCfg (set_guessing guessing
+     (cfg_set_in k_session_info (lit "last_updated") stamp
+        (cfg_set_in k_rule_info (lit "uuid") uuid (m_create_save_config now rule sb sc))))) =
+  LOk (set_guessing guessing
+     (cfg_set_in k_session_info (lit "last_updated") stamp
+        (cfg_set_in k_rule_info (lit "uuid") uuid (m_create_save_config now rule sb sc)))) rule sb sc.
+Proof. exact session_file_round_trip. Qed.
+
+(* non-vacuity: the resumed run of CliGenProofs.ex_env (saved uuid = ruleset uuid) *)
+Theorem C08_source_cli_example :
+  run_main (py_main ex_env) world0 =
+  (MDone,
+   let g := {| gc_rule_name := VStr (lit "R"); gc_base_directory := VStr (lit "/x/Rules/R"); gc_version := gen_version;
+               gc_save_file := VStr (lit "/x/s1.sav"); gc_skip_brute := VBool false; gc_skip_case := VBool true;
+               gc_debug := VBool false |} in
+   [EGrammar g;
+    ECrackRun {| cs_pcfg := {| g_call := g; g_uuid := VStr (lit "u-1") |}; cs_save_config := VCfg ex_saved;
+                 cs_save_filename := VStr (lit "/x/s1.sav") |} (VBool true) (VInt 5%Z)]).
+Proof. exact ex_resume_run. Qed.
+
+Print Assumptions C08_source_main_is_model.
+Print Assumptions C08_uuid_decides_resume.
+Print Assumptions C08_save_load_round_trip.
